@@ -138,7 +138,11 @@ class SpecSet:
         self.plain_classes_src.update(consts.get("PLAIN_CLASSES", {}))
         self.opaque_methods_src.update(consts.get("OPAQUE_METHODS", {}))
         self.opaque_attrs_src.update(consts.get("OPAQUE_ATTRS", {}))
-        self.module_fns_src.update(consts.get("MODULE_FNS", {}))
+        for fq_, sp_ in consts.get("MODULE_FNS", {}).items():
+            # library functions are declared per target module (the MODULE of the spec file): two spec files may
+            # model the same library call differently for the code they are about; the unscoped key is a fallback
+            self.module_fns_src[(consts.get("MODULE", ""), fq_)] = sp_
+            self.module_fns_src.setdefault(fq_, sp_)
         self.event_fields_src.update(consts.get("EVENT_FIELDS", {}))
         self.inline.update(consts.get("INLINE", []))
         self.lock_types.update(consts.get("LOCK_TYPES", []))
@@ -334,9 +338,11 @@ class SpecSet:
             return None
         return self.w.resolve_ann(ast.parse(s, mode="eval").body, fi.module)
 
-    def module_fn(self, fq):
+    def module_fn(self, fq, module=None):
         if fq in self.handlers:
             return {"handler": self.handlers[fq]}
+        if module is not None and (module, fq) in self._module_fns:
+            return self._module_fns[(module, fq)]
         return self._module_fns.get(fq)
 
     def allow_frozen_write(self, cls):
